@@ -120,6 +120,9 @@ where
                         Err(err) => return Poll::Ready(Err(err)),
                     };
                     if let Some(empty_packet) = header.build_empty_packet() {
+                        if header.remaining_len() != 0 {
+                            return Poll::Ready(Err(Error::InvalidRemainingLength.into()));
+                        }
                         let total = 1 + 1 + *var_idx as usize;
                         return Poll::Ready(Ok((total, Vec::new(), empty_packet)));
                     }
